@@ -501,6 +501,11 @@ def write_evidence(ctx: Ctx, nviol: int) -> None:
         "wall_s": round(time.time() - ctx.t0, 2),
         "violations": nviol,
     }
-    out = VERIF / "evidence" / f"{ctx.pid}.json"
-    out.parent.mkdir(exist_ok=True)
+    # evidence/ describes runs against /repo itself; a run against another tree (VERIF_REPO=<scratch
+    # worktree>, used when trying seeded changes) leaves its record beside its build directory
+    if str(ctx.repo) == "/repo":
+        out = VERIF / "evidence" / f"{ctx.pid}.json"
+    else:
+        out = ctx.bdir.parent / "evidence" / f"{ctx.pid}.json"
+    out.parent.mkdir(parents=True, exist_ok=True)
     out.write_text(json.dumps(ev, indent=1, default=repr) + "\n")
